@@ -193,7 +193,7 @@ func runC03(e *env) {
 		n, samples = 120, 30
 	}
 	for i := 0; i < n; i++ {
-		prof := profile{Unions: true, Structs: true, NamedBasics: true, Enums: true, Containers: true, Time: true, Embedded: true, SubPkg: true, ModShape: 0, NoNamedTime: true, NoBytes: true}
+		prof := profile{Unions: true, Structs: true, NamedBasics: true, Enums: true, Containers: true, Time: true, Embedded: true, SubPkg: true, ModShape: 0, NoNamedTime: true, NoBytes: true, TagsSafe: true, SiblingMembers: true}
 		specs = append(specs, synthModule(e.r, prof, i))
 	}
 	obs := observeAll(specs, "gounions,ts", 14)
@@ -283,6 +283,7 @@ func corpusTS() []*modSpec {
 		mk("ts-opaque-with-json-name", "package models\n\ntype Payload struct{ A int }\n\ntype Event struct {\n\tID int `json:\"id\"`\n\tMeta Payload `json:\"meta_data\" gomacro-opaque:\"typescript\"`\n\tRaw Payload `gomacro-opaque:\"typescript\"`\n\tBoth Payload `json:\"both,omitempty\" gomacro-opaque:\"dart, typescript\"`\n\tComment string\n}\n"),
 		mk("ts-empty-tag-names", "package models\n\ntype Inner struct{ A int }\n\ntype S struct {\n\tNested Inner `json:\",omitempty\"`\n\tPair [2]int `json:\",omitempty\"`\n\tEmpty Inner `json:\"\"`\n\tPlain string\n}\n"),
 		withClass(mk("ts-string-option", "package models\n\ntype S struct {\n\tN int `json:\",string\"`\n\tB bool `json:\"b,string\"`\n\tPlain string\n}\n"), "json-string-option"),
+		withClass(mk("ts-gomacro-ignored-on-the-wire", "package models\n\ntype Account struct {\n\tID int\n\tLogin string `json:\"login\"`\n\tCache []int `gomacro:\"ignore\"`\n\tNotes map[string]string `json:\"notes\" gomacro:\"ignore\"`\n}\n"), "gomacro-ignored-field-on-the-wire"),
 		withClass(mk("ts-bytes", "package models\n\ntype S struct {\n\tData []byte\n\tFixed [4]byte\n}\n"), "byte-slice-in-json"),
 		withClass(mk("ts-omitempty", "package models\n\ntype S struct {\n\tA int `json:\"a,omitempty\"`\n\tB string\n}\n"), "omitempty-field-may-be-absent"),
 		withClass(mk("ts-named-time", "package models\n\nimport \"time\"\n\ntype Date time.Time\n\ntype S struct {\n\tD Date\n\tT time.Time\n}\n"), "named-time-type-without-json-methods"),
